@@ -263,6 +263,8 @@ class Interp(ExprMixin, LoopMixin, CallMixin):
         return c
 
     def event(self, kind, node, **data):
+        if getattr(self, 'in_default', 0):
+            data['def_time'] = True      # happens while a parameter default is evaluated: once, at import
         self.seqno += 1
         e = Event(kind, node, data, self.stack, self.seqno)
         self.events.append(e)
